@@ -1,14 +1,440 @@
 package main
 
-// Replay of solver counterexamples against the real code (go test -overlay).
+import (
+	"bytes"
+	"context"
+	"encoding/json"
+	"flag"
+	"fmt"
+	"go/types"
+	"os"
+	"os/exec"
+	"path/filepath"
+	"regexp"
+	"strconv"
+	"strings"
+	"time"
+
+	"golang.org/x/tools/go/ssa"
+)
+
+// Replay of solver counterexamples against the real code.
+//
+// A failed obligation whose function takes only integers, booleans, strings and byte slices is
+// re-solved in "counterexample mode" (sizes bounded so that the inputs can be read off the model
+// with get-value), the inputs are turned into an in-package Go test injected with
+// `go test -overlay` (nothing is written into the repository), and the test checks the negated
+// obligation on the real function: a run-time panic for safety obligations, a hand-written
+// executable form of the postcondition where one is registered (see replayOracles).
 
 type Replay struct {
 	Source    string
 	Output    string
 	Confirmed bool
 	Inputs    map[string]interface{}
+	Note      string
 }
 
 func (o *Obligation) replayConfirmed() bool { return o.Replay != nil && o.Replay.Confirmed }
 
-func tryReplay(e *Engine, root, prop string, o *Obligation) {}
+var safetyKinds = map[string]bool{"bounds:index": true, "bounds:slice": true, "nil": true, "pre": true, "div": true, "assert:type": true, "panic": true, "alloc": true}
+
+type replayParam struct {
+	name string
+	kind string // int, bool, string, bytes
+	typ  string // Go type text
+	val  Val
+}
+
+// replayable: can a test be generated for this obligation at all?
+func replayable(o *Obligation) bool {
+	if o.fc == nil || o.fc.fn == nil {
+		return false
+	}
+	fn := o.fc.fn
+	if fn.Signature.Recv() != nil {
+		return false
+	}
+	for _, p := range fn.Params {
+		switch t := p.Type().Underlying().(type) {
+		case *types.Basic:
+			if t.Info()&(types.IsInteger|types.IsBoolean|types.IsString) == 0 {
+				return false
+			}
+		case *types.Slice:
+			if b, ok := t.Elem().Underlying().(*types.Basic); !ok || b.Kind() != types.Uint8 {
+				return false
+			}
+		default:
+			return false
+		}
+	}
+	if !safetyKinds[o.Kind] && (replayOracles[o.fc.name] == "" || o.Kind != "post") {
+		return false
+	}
+	return true
+}
+
+func tryReplay(e *Engine, root, prop string, o *Obligation) {
+	if o.fc == nil || o.fc.fn == nil || o.Replay != nil {
+		return
+	}
+	fn := o.fc.fn
+	if fn.Signature.Recv() != nil {
+		o.Replay = &Replay{Note: "no replay generator for methods"}
+		return
+	}
+	var params []replayParam
+	for _, p := range fn.Params {
+		rp := replayParam{name: p.Name(), val: o.fc.vals[p], typ: types.TypeString(p.Type(), func(*types.Package) string { return "" })}
+		switch t := p.Type().Underlying().(type) {
+		case *types.Basic:
+			switch {
+			case t.Info()&types.IsInteger != 0:
+				rp.kind = "int"
+			case t.Info()&types.IsBoolean != 0:
+				rp.kind = "bool"
+			case t.Info()&types.IsString != 0:
+				rp.kind = "string"
+			}
+		case *types.Slice:
+			if b, ok := t.Elem().Underlying().(*types.Basic); ok && b.Kind() == types.Uint8 {
+				rp.kind = "bytes"
+			}
+		}
+		if rp.kind == "" {
+			o.Replay = &Replay{Note: "no replay generator for parameter type " + rp.typ}
+			return
+		}
+		params = append(params, rp)
+	}
+	oracle := replayOracles[o.fc.name]
+	if !safetyKinds[o.Kind] && (oracle == "" || o.Kind != "post") {
+		o.Replay = &Replay{Note: "no executable oracle for obligation kind " + o.Kind}
+		return
+	}
+	// counterexample mode: bound the sizes, ask for values
+	for _, bound := range []int{24, 256} {
+		inputs, out, ok := solveForInputs(o, params, bound)
+		if !ok {
+			_ = out
+			continue
+		}
+		src := genReplayTest(o, fn, params, inputs, oracle)
+		res, confirmed := runReplayTest(e.repo, src)
+		o.Replay = &Replay{Source: src, Output: res, Confirmed: confirmed, Inputs: inputs}
+		if confirmed {
+			return
+		}
+	}
+	if o.Replay == nil {
+		o.Replay = &Replay{Note: "no model with small inputs"}
+	}
+}
+
+func solveForInputs(o *Obligation, params []replayParam, bound int) (map[string]interface{}, string, bool) {
+	var b strings.Builder
+	// counterexample mode is quantifier-free: quantified assumptions are dropped (the replay on the real code,
+	// not the solver, decides whether the resulting input is a genuine counterexample)
+	for _, line := range strings.Split(strings.TrimSuffix(strings.TrimSpace(o.SMT(0)), "(check-sat)"), "\n") {
+		if strings.HasPrefix(line, "(assert") && (strings.Contains(line, "(forall ") || strings.Contains(line, "(exists ")) && !strings.HasPrefix(line, "(assert (not ") {
+			continue
+		}
+		b.WriteString(line)
+		b.WriteByte('\n')
+	}
+	mem := qsym("E.u8@0")
+	hasMem := o.fc.declared[mem]
+	var terms []string
+	for _, p := range params {
+		switch p.kind {
+		case "int", "bool":
+			terms = append(terms, p.val.T)
+		case "string":
+			b.WriteString(fmt.Sprintf("(assert (<= (slen %s) %d))\n", p.val.T, bound))
+			terms = append(terms, sx("slen", p.val.T))
+			for k := 0; k < bound; k++ {
+				t := sx("sbyte", p.val.T, num(int64(k)))
+				b.WriteString(fmt.Sprintf("(assert (and (<= 0 %s) (<= %s 255)))\n", t, t))
+				terms = append(terms, t)
+			}
+		case "bytes":
+			b.WriteString(fmt.Sprintf("(assert (<= (s-cap %s) %d))\n", p.val.T, bound))
+			terms = append(terms, sx("s-len", p.val.T), sx("s-cap", p.val.T), sx("s-obj", p.val.T))
+			if hasMem {
+				for k := 0; k < bound; k++ {
+					t := sel2(mem, sx("s-obj", p.val.T), add(sx("s-off", p.val.T), num(int64(k))))
+					b.WriteString(fmt.Sprintf("(assert (and (<= 0 %s) (<= %s 255)))\n", t, t))
+					terms = append(terms, t)
+				}
+			}
+		}
+	}
+	b.WriteString("(check-sat)\n(get-value (" + strings.Join(terms, " ") + "))\n")
+	dir, err := os.MkdirTemp("", "gvc-replay-")
+	if err != nil {
+		return nil, "", false
+	}
+	defer os.RemoveAll(dir)
+	file := filepath.Join(dir, "cex.smt2")
+	os.WriteFile(file, []byte(b.String()), 0o644)
+	for _, sd := range solvers[:2] {
+		argv := sd.argv(file, 8*time.Second, 0)
+		ctx, cancel := context.WithTimeout(context.Background(), 10*time.Second)
+		cmd := exec.CommandContext(ctx, argv[0], argv[1:]...)
+		var out bytes.Buffer
+		cmd.Stdout = &out
+		cmd.Stderr = &out
+		_ = cmd.Run()
+		cancel()
+		s := out.String()
+		if !strings.HasPrefix(strings.TrimSpace(s), "sat") {
+			continue
+		}
+		vals := parseGetValue(s[strings.Index(s, "sat")+3:])
+		if len(vals) < len(terms) {
+			continue
+		}
+		inputs := map[string]interface{}{}
+		i := 0
+		for _, p := range params {
+			switch p.kind {
+			case "int":
+				inputs[p.name] = vals[i]
+				i++
+			case "bool":
+				inputs[p.name] = vals[i] == "true"
+				i++
+			case "string":
+				n := atoi(vals[i])
+				i++
+				bs := make([]int, 0, n)
+				for k := 0; k < bound; k++ {
+					if k < n {
+						bs = append(bs, atoi(vals[i])&255)
+					}
+					i++
+				}
+				inputs[p.name] = bs
+			case "bytes":
+				n, c, ob := atoi(vals[i]), atoi(vals[i+1]), atoi(vals[i+2])
+				i += 3
+				bs := make([]int, 0, c)
+				if hasMem {
+					for k := 0; k < bound; k++ {
+						if k < c {
+							bs = append(bs, atoi(vals[i])&255)
+						}
+						i++
+					}
+				} else {
+					for k := 0; k < c; k++ {
+						bs = append(bs, 0)
+					}
+				}
+				inputs[p.name] = map[string]interface{}{"len": n, "cap": c, "nil": ob == 0, "bytes": bs}
+			}
+		}
+		return inputs, s, true
+	}
+	return nil, "", false
+}
+
+func atoi(s string) int {
+	s = strings.TrimSpace(s)
+	neg := false
+	if strings.HasPrefix(s, "(-") {
+		neg = true
+		s = strings.TrimSuffix(strings.TrimSpace(s[2:]), ")")
+	}
+	n, _ := strconv.ParseInt(strings.TrimSpace(s), 10, 64)
+	if neg {
+		n = -n
+	}
+	return int(n)
+}
+
+// parseGetValue extracts the values from "((t1 v1) (t2 v2) ...)" in order.
+func parseGetValue(s string) []string {
+	root := parseSexpr(strings.TrimSpace(s))
+	if root == nil {
+		return nil
+	}
+	var out []string
+	for _, pair := range root.kids {
+		if len(pair.kids) == 2 {
+			out = append(out, pair.kids[1].text)
+		}
+	}
+	return out
+}
+
+func goInt(v interface{}, typ string) string {
+	s := fmt.Sprintf("%v", v)
+	n := atoi(s)
+	if strings.HasPrefix(strings.TrimSpace(s), "(-") || n < 0 {
+		return fmt.Sprintf("%s(%d)", typ, n)
+	}
+	// large unsigned values
+	s = strings.TrimSpace(s)
+	if _, err := strconv.ParseUint(s, 10, 64); err == nil {
+		return fmt.Sprintf("%s(%s)", typ, s)
+	}
+	return fmt.Sprintf("%s(%d)", typ, n)
+}
+
+func genReplayTest(o *Obligation, fn *ssa.Function, params []replayParam, inputs map[string]interface{}, oracle string) string {
+	var b strings.Builder
+	b.WriteString("package go9p\n\nimport (\n\tgvcfmt \"fmt\"\n\tgvctesting \"testing\"\n)\n\n")
+	b.WriteString("// replay of obligation " + o.Name + "\n")
+	b.WriteString("func TestGvcReplay(t *gvctesting.T) {\n")
+	var args []string
+	for _, p := range params {
+		v := inputs[p.name]
+		switch p.kind {
+		case "int":
+			b.WriteString(fmt.Sprintf("\tgvc_%s := %s\n", p.name, goInt(v, p.typ)))
+		case "bool":
+			b.WriteString(fmt.Sprintf("\tgvc_%s := %v\n", p.name, v))
+		case "string":
+			bs := v.([]int)
+			b.WriteString(fmt.Sprintf("\tgvc_%s := string([]byte{%s})\n", p.name, joinInts(bs)))
+		case "bytes":
+			m := v.(map[string]interface{})
+			if m["nil"].(bool) {
+				b.WriteString(fmt.Sprintf("\tvar gvc_%s []byte\n", p.name))
+			} else {
+				b.WriteString(fmt.Sprintf("\tgvc_%s := []byte{%s}[:%d]\n", p.name, joinInts(m["bytes"].([]int)), m["len"].(int)))
+			}
+		}
+		args = append(args, "gvc_"+p.name)
+	}
+	call := fn.Name() + "(" + strings.Join(args, ", ") + ")"
+	b.WriteString("\tgvcPanicked := true\n\tvar gvcWhat interface{}\n")
+	b.WriteString("\tfunc() {\n\t\tdefer func() { gvcWhat = recover() }()\n")
+	nres := fn.Signature.Results().Len()
+	if oracle != "" && o.Kind == "post" {
+		var rs []string
+		for i := 0; i < nres; i++ {
+			rs = append(rs, fmt.Sprintf("r%d", i))
+		}
+		if nres > 0 {
+			b.WriteString("\t\t" + strings.Join(rs, ", ") + " := " + call + "\n")
+		} else {
+			b.WriteString("\t\t" + call + "\n")
+		}
+		b.WriteString("\t\tgvcPanicked = false\n")
+		b.WriteString("\t\tif msg := func() string {\n" + oracle + "\n\t\t\treturn \"\"\n\t\t}(); msg != \"\" {\n\t\t\tgvcfmt.Println(\"GVC-REPLAY CONFIRMED postcondition violated:\", msg)\n\t\t} else {\n\t\t\tgvcfmt.Println(\"GVC-REPLAY NOT-CONFIRMED postcondition holds on this input\")\n\t\t}\n")
+	} else {
+		if nres > 0 {
+			blanks := strings.TrimSuffix(strings.Repeat("_, ", nres), ", ")
+			b.WriteString("\t\t" + blanks + " = " + call + "\n")
+		} else {
+			b.WriteString("\t\t" + call + "\n")
+		}
+		b.WriteString("\t\tgvcPanicked = false\n")
+	}
+	b.WriteString("\t}()\n")
+	if !(oracle != "" && o.Kind == "post") {
+		b.WriteString("\tif gvcPanicked {\n\t\tgvcfmt.Println(\"GVC-REPLAY CONFIRMED panic:\", gvcWhat)\n\t} else {\n\t\tgvcfmt.Println(\"GVC-REPLAY NOT-CONFIRMED no panic on this input\")\n\t}\n")
+	} else {
+		b.WriteString("\tif gvcPanicked {\n\t\tgvcfmt.Println(\"GVC-REPLAY CONFIRMED panic:\", gvcWhat)\n\t}\n")
+	}
+	b.WriteString("}\n")
+	return b.String()
+}
+
+func joinInts(xs []int) string {
+	var ss []string
+	for _, x := range xs {
+		ss = append(ss, strconv.Itoa(x))
+	}
+	return strings.Join(ss, ", ")
+}
+
+func runReplayTest(repo, src string) (string, bool) {
+	dir, err := os.MkdirTemp("", "gvc-replay-")
+	if err != nil {
+		return err.Error(), false
+	}
+	defer os.RemoveAll(dir)
+	tf := filepath.Join(dir, "zz_gvc_replay_test.go")
+	os.WriteFile(tf, []byte(src), 0o644)
+	ov := map[string]map[string]string{"Replace": {filepath.Join(repo, "zz_gvc_replay_test.go"): tf}}
+	data, _ := json.Marshal(ov)
+	ovf := filepath.Join(dir, "overlay.json")
+	os.WriteFile(ovf, data, 0o644)
+	ctx, cancel := context.WithTimeout(context.Background(), 180*time.Second)
+	defer cancel()
+	cmd := exec.CommandContext(ctx, "go", "test", "-overlay", ovf, "-vet=off", "-v", "-timeout", "60s", "-count=1", "-run", "^TestGvcReplay$", ".")
+	cmd.Dir = repo
+	cmd.Env = childEnv()
+	var out bytes.Buffer
+	cmd.Stdout = &out
+	cmd.Stderr = &out
+	_ = cmd.Run()
+	s := out.String()
+	return s, strings.Contains(s, "GVC-REPLAY CONFIRMED")
+}
+
+// replayOracles: executable forms of postconditions (Go statements that `return "reason"` when the
+// postcondition is violated; results are r0, r1, ...; inputs are gvc_<param>). Written from the
+// property statements, used only to confirm counterexamples, never to prove anything.
+var replayOracles = map[string]string{
+	"Unpack": `			fc, fcsz, err := r0, r1, r2
+			if err != nil {
+				if fc != nil || fcsz != 0 { return "error with non-nil result" }
+				return ""
+			}
+			if fc == nil { return "nil Fcall without error" }
+			if len(gvc_buf) < 7 { return "accepted a buffer shorter than a header" }
+			sz := int(gvc_buf[0]) | int(gvc_buf[1])<<8 | int(gvc_buf[2])<<16 | int(gvc_buf[3])<<24
+			if fcsz != sz || fcsz < 7 || fcsz > len(gvc_buf) { return gvcfmt.Sprint("consumed ", fcsz, " but size prefix is ", sz) }
+			if fc.Type < 100 || fc.Type > 127 || fc.Type == 106 { return gvcfmt.Sprint("undefined type ", fc.Type) }
+			if fc.Type != gvc_buf[4] || fc.Tag != uint16(gvc_buf[5])|uint16(gvc_buf[6])<<8 || int(fc.Size) != sz { return "header fields differ from the bytes" }
+			if len(fc.Pkt) != sz { return "Pkt is not the packet" }
+			if (fc.Type == 117 || fc.Type == 118) && int(fc.Count) != len(fc.Data) { return "count differs from data length" }
+`,
+	"UnpackDir": `			d, b, amt, err := r0, r1, r2, r3
+			if err != nil {
+				if d != nil || b != nil || amt != 0 { return "error with non-zero result" }
+				return ""
+			}
+			if d == nil || amt < 0 || amt > len(gvc_buf) || len(b) != len(gvc_buf)-amt { return "inconsistent result" }
+`,
+}
+
+// cmdReplay re-runs the Go test stored in a replay file.
+func cmdReplay(args []string) {
+	fs := flag.NewFlagSet("replay", flag.ExitOnError)
+	file := fs.String("file", "", "replay file")
+	repo := fs.String("repo", "/repo", "repository")
+	fs.Parse(args)
+	data, err := os.ReadFile(*file)
+	if err != nil {
+		fmt.Fprintln(os.Stderr, err)
+		os.Exit(2)
+	}
+	var rf map[string]interface{}
+	if err := json.Unmarshal(data, &rf); err != nil {
+		fmt.Fprintln(os.Stderr, err)
+		os.Exit(2)
+	}
+	fmt.Printf("obligation: %v\nresult: %v (%v)\n", rf["obligation"], rf["result"], rf["solver"])
+	src, _ := rf["replay_test"].(string)
+	if src == "" {
+		fmt.Println("no replayable input was found for this obligation (no-failing-input-found); solver output follows")
+		fmt.Println(rf["solver_output"])
+		os.Exit(1)
+	}
+	out, confirmed := runReplayTest(*repo, src)
+	fmt.Println(out)
+	if confirmed {
+		fmt.Println("violation reproduced on the real code")
+		os.Exit(1)
+	}
+	fmt.Println("not reproduced on the current tree")
+	os.Exit(0)
+}
+
+var _ = regexp.MustCompile
